@@ -1,6 +1,7 @@
 package harness
 
 import (
+	"io"
 	remoteexecution "github.com/bazelbuild/remote-apis/build/bazel/remote/execution/v2"
 	"bytes"
 	"context"
@@ -90,6 +91,15 @@ func c17Composite(fallback bool) func(c *sim.RunCtx) {
 				return nil
 			}
 			front.Fault, back.Fault = fault, fault
+			// a Put that fails only after the last byte was consumed (commit failure)
+			commitFault := func(d digest.Digest) error {
+				if faultRate > 0 && ft.Chance(faultRate, 1000) {
+					injected++
+					return status.Error(codes.Unavailable, "injected commit failure of Put")
+				}
+				return nil
+			}
+			front.CommitFault, back.CommitFault = commitFault, commitFault
 			clk := sim.NewClock(s)
 			var ba blobstore.BlobAccess
 			var writeTarget, other *modelStore
@@ -124,7 +134,7 @@ func c17Composite(fallback bool) func(c *sim.RunCtx) {
 				ops := plans[ci]
 				s.Go(fmt.Sprintf("client%d", ci), func() {
 					defer func() { done++ }()
-					for _, o := range ops {
+					for oi, o := range ops {
 						if c.Failed() {
 							return
 						}
@@ -148,14 +158,33 @@ func c17Composite(fallback bool) func(c *sim.RunCtx) {
 							c.Count("probe_put", 1)
 						case 1: // Get
 							hadFront, hadBack := front.Has(ob.D), back.Has(ob.D)
-							data, err := ba.Get(ctx, ob.D).ToByteSlice(1 << 20)
+							var data []byte
+							var err error
+							if (o[1]+oi)%2 == 1 {
+								// consumed the way ByteStream does: chunk by chunk to the end
+								r := ba.Get(ctx, ob.D).ToChunkReader(0, 1+o[1]%3)
+								for {
+									chunk, rerr := r.Read()
+									if rerr == io.EOF {
+										break
+									}
+									if rerr != nil {
+										err = rerr
+										break
+									}
+									data = append(data, chunk...)
+								}
+								r.Close()
+							} else {
+								data, err = ba.Get(ctx, ob.D).ToByteSlice(1 << 20)
+							}
 							faulted := injected > inj0
 							if err == nil {
 								if !bytes.Equal(data, ob.Data) {
 									c.Fail("wrong-bytes", "Get(o%d) returned %s [%s]", o[1], short(data), desc)
 								} else if !front.Has(ob.D) && !back.Has(ob.D) {
 									c.Fail("get-of-absent-object", "Get(o%d) succeeded although no backend holds it [%s]", o[1], desc)
-								} else if copying && !faulted && !front.Has(ob.D) {
+								} else if copying && !front.Has(ob.D) {
 									c.Fail("read-through-did-not-copy", "Get(o%d) succeeded through the %s backend with replicator %s, but the %s backend still lacks it [%s]", o[1], back.Name, replStrategyNames[strategy], front.Name, desc)
 								}
 								if !hadFront && hadBack {
